@@ -397,7 +397,7 @@ impl Graph for SG {
                 self.probes.fetch_add(1, Ordering::Relaxed);
                 out.impl_steps += 1;
                 match probe("server-handle_input", i as u64, *t as u64, bytes.len() + 4096, 256, || {
-                    let mut o = Obs { panicked: None, err: None, events: Vec::new(), packets: Vec::new(), unhandleable: 0 };
+                    let mut o = Obs::empty();
                     hh.input(&bytes, &mut o);
                     o
                 }) {
@@ -468,7 +468,7 @@ impl Graph for CG {
                 self.probes.fetch_add(1, Ordering::Relaxed);
                 out.impl_steps += 1;
                 match probe("client-handle_input", i as u64, *t as u64, bytes.len() + 4096, 256, || {
-                    let mut o = Obs { panicked: None, err: None, events: Vec::new(), packets: Vec::new(), unhandleable: 0 };
+                    let mut o = Obs::empty();
                     hh.input(&bytes, &mut o);
                     o
                 }) {
